@@ -1890,12 +1890,13 @@ Qed.
 
 Lemma json_item_nosent : forall it, item_json_ok it = true -> nosent (json_item it) = true.
 Proof.
-  intros it H. destruct it as [s|kvs|z|b| |s r j]; cbn [json_item].
+  intros it H. destruct it as [s|kvs|z|b| |s r j|kvs s r j]; cbn [json_item].
   - apply json_str_nosent.
   - apply json_dict_nosent.
   - apply dec_nosent.
   - destruct b; reflexivity.
   - reflexivity.
+  - exact H.
   - exact H.
 Qed.
 
@@ -1912,7 +1913,7 @@ Qed.
 Lemma json_value_nosent : forall v, value_ok v = true -> nosent (json_value v) = true.
 Proof.
   intros v H. unfold value_ok in H. apply andb_prop in H. destruct H as [Hs Hl].
-  destruct v as [s|z|b|l| |s t|l]; cbn [json_value]; cbn [seq_of] in Hl.
+  destruct v as [s|z|b|l| |s t|l|s r j t n]; cbn [json_value]; cbn [seq_of] in Hl.
   - apply json_str_nosent.
   - apply dec_nosent.
   - destruct b; reflexivity.
@@ -1920,6 +1921,7 @@ Proof.
   - reflexivity.
   - exact Hs.
   - apply andb_prop in Hl. apply json_seq_nosent. tauto.
+  - cbn [obj_views_ok] in Hl. apply andb_prop in Hl. destruct j as [j|]; [tauto|reflexivity].
 Qed.
 
 Lemma repr_char_in : forall q c a, q < 128 -> In a (repr_char q c) -> a < 57344 \/ (a = c /\ a <> 57344 /\ a <> 57345).
@@ -1956,8 +1958,13 @@ Proof.
   destruct (repr_char_in q c a Hq H) as [H1|(_ & H1 & H2)]; lia.
 Qed.
 
-Lemma repr_value_nosent : forall v, nosent (str_value v) = true -> nosent (repr_value v) = true.
-Proof. intros v H. destruct v; cbn [repr_value]; auto. apply py_repr_nosent. Qed.
+Lemma repr_value_nosent : forall v, value_ok v = true -> nosent (repr_value v) = true.
+Proof.
+  intros v Hok. unfold value_ok in Hok. apply andb_prop in Hok. destruct Hok as [H Hl].
+  destruct v; cbn [repr_value]; auto.
+  - apply py_repr_nosent.
+  - cbn [seq_of obj_views_ok] in Hl. apply andb_prop in Hl. tauto.
+Qed.
 
 Lemma title_go_in : forall s prev a, In a (title_go prev s) ->
   exists c, In c s /\ (a = low_char c \/ a = up_char c).
@@ -1979,7 +1986,10 @@ Qed.
 (* the result of a built-in filter on an admissible value is sentinel-free: shielding and
    unshielding it gives it back unchanged (json / repr even escape the sentinels) *)
 Lemma len_filter_nosent : forall v s, len_filter v = inl s -> nosent s = true.
-Proof. intros v s H. destruct v; inversion H; subst; apply dec_nosent. Qed.
+Proof.
+  intros v s H. destruct v as [s0|z|b|l| |s0 t|l|s0 r j t n]; cbn [len_filter] in H;
+    try destruct n as [n|]; inversion H; subst; apply dec_nosent.
+Qed.
 
 Lemma builtin_filter_nosent : forall w v s,
   value_ok v = true -> builtin_filter w v = inl s -> nosent s = true.
@@ -2001,7 +2011,10 @@ Proof.
   destruct (str_eqb w F_TITLE).
   { inversion H; subst. apply title_nosent; auto. }
   destruct (str_eqb w F_JSON).
-  { inversion H; subst. apply json_value_nosent; auto. }
+  { unfold json_filter in H.
+    assert (Hj : nosent (json_value v) = true) by (apply json_value_nosent; auto).
+    destruct v as [s0|z|b|l| |s0 t|l|s0 r j t n]; try (inversion H; subst; exact Hj).
+    destruct j as [j|]; inversion H; subst; exact Hj. }
   inversion H; subst. apply repr_value_nosent; auto.
 Qed.
 
@@ -2018,6 +2031,9 @@ Proof.
     apply (nosent_app (str_value v) K_CLOSE); [exact Hv|reflexivity].
   - inversion H; subst. auto.
   - eapply len_filter_nosent; eauto.
+  - injection H as <-. apply (nosent_app K_TAG_OPEN (rev (str_value v) ++ K_TAG_CLOSE)); [reflexivity|].
+    apply (nosent_app (rev (str_value v)) K_TAG_CLOSE); [|reflexivity].
+    apply in_nosent. intros c Hc. apply in_rev in Hc. apply (nosent_in _ c Hv Hc).
 Qed.
 
 (* the result of a filter on an admissible value is sentinel-free: shielding and unshielding
@@ -4320,6 +4336,205 @@ Proof.
     rewrite El.
     destruct (render_eq_core true T c Hc (templates_wf_b T HT) (fun _ => HTb) (length T) t txt miss Hwf H) as (w & Ew).
     rewrite Ew. cbn [add_missing map app]. eauto.
+Qed.
+
+(* ================================================================== *)
+(* X. WHAT a binding contributes and WHAT IT MAY BE CALLED.
+      (1) the text a bound value contributes at a plain / optional / defaulted variable, and a loop item at
+          {{.}} / {{item}}, is str(value) - [str_value] / [str_item] - for a value of ANY type: for [VObj s r j t n]
+          (an object given by what str(), repr(), json.dumps(), bool(), len() answer for it, five independent
+          things) it is s, whatever the other four are;
+      (2) the three operations that take the bindings as keyword arguments (synthesize, translate of an mRNA,
+          translate by name) and the include that forwards them hand EVERY keyword to the renderer under its
+          own name: the statements quantify over every identifier x, with no exception. *)
+
+Lemma render_both : forall strict T c t txt miss,
+  ctx_ok c = true ->
+  forallb (fun nt => well_formed (snd nt)) T = true -> well_formed t = true ->
+  (strict = true -> Forall (fun nt => out_bound c (snd nt)) T) ->
+  (strict = true -> out_bound c t) ->
+  render_spec strict T c t = SOk txt miss ->
+  exists w, render_impl strict (print_templates T) c (print t) = Ok txt w.
+Proof.
+  intros strict T c t txt miss Hc HT Hwf HTb Hb H. destruct strict.
+  - eapply strict_loop_vars_proof; eauto.
+  - eapply render_eq_proof; eauto.
+Qed.
+
+Lemma out_bound_var : forall c x v, lookup c x = Some v -> out_bound c [NLeaf (LVar x)].
+Proof.
+  intros c x v L y Hy. cbv in Hy. destruct Hy as [<-|[]]. congruence.
+Qed.
+Lemma out_bound_opt : forall c x, out_bound c [NLeaf (LOpt x)].
+Proof. intros c x y Hy. cbv in Hy. destruct Hy. Qed.
+Lemma out_bound_pipe : forall c x d, out_bound c [NLeaf (LPipe x d)].
+Proof. intros c x d y Hy. cbv in Hy. destruct Hy. Qed.
+
+
+Lemma spec_leaf_value : forall strict T c x d v l,
+  is_filter d = false -> lookup c x = Some v ->
+  In l [LVar x; LOpt x; LPipe x d] ->
+  render_spec strict T c [NLeaf l] = SOk (str_value v) [].
+Proof.
+  intros strict T c x d v l Hd L Hl. unfold render_spec.
+  cbn [render_tpl render_nodes map sconcat fold_right render_node].
+  destruct Hl as [<-|[<-|[<-|[]]]]; cbn [render_leaf]; rewrite ?Hd, L; cbn [sapp app]; rewrite app_nil_r; reflexivity.
+Qed.
+
+Theorem value_text_proof : forall strict T c x d v l,
+  ctx_ok c = true ->
+  forallb (fun nt => well_formed (snd nt)) T = true ->
+  (strict = true -> Forall (fun nt => out_bound c (snd nt)) T) ->
+  word x = true -> nonempty d = true -> clean d = true -> is_filter d = false ->
+  lookup c x = Some v ->
+  In l [LVar x; LOpt x; LPipe x d] ->
+  exists w, render_impl strict (print_templates T) c (print [NLeaf l]) = Ok (str_value v) w.
+Proof.
+  intros strict T c x d v l Hc HT HTb Hx Hne Hcl Hd L Hl.
+  pose proof (spec_leaf_value strict T c x d v l Hd L Hl) as Hs.
+  eapply render_both; eauto.
+  - destruct Hl as [<-|[<-|[<-|[]]]]; cbn [well_formed forallb node_wf leaf_wf]; rewrite ?Hx, ?Hne, ?Hcl; reflexivity.
+  - intros _. destruct Hl as [<-|[<-|[<-|[]]]].
+    + eapply out_bound_var; eauto.
+    + apply out_bound_opt.
+    + apply out_bound_pipe.
+Qed.
+
+
+(* loop items *)
+Definition is_dict (it : item) : bool :=
+  match it with IDict _ | IDictO _ _ _ _ => true | _ => false end.
+
+Lemma loop_context_plain : forall i n it, is_dict it = false ->
+  lookup (loop_context i n it) K_DOT = Some (str_item it) /\
+  lookup (loop_context i n it) K_ITEM = Some (str_item it).
+Proof.
+  intros i n it H. destruct it; try discriminate; split; reflexivity.
+Qed.
+
+Lemma items_text : forall strict c inc l items n i,
+  In l [LDot; LVar K_ITEM] ->
+  forallb (fun it => negb (is_dict it)) items = true ->
+  render_items strict c inc [l] n i items = SOk (flat_map str_item items) [].
+Proof.
+  intros strict c inc l items n. induction items as [|it items IH]; intros i Hl Hd; [reflexivity|].
+  cbn [forallb] in Hd. apply andb_prop in Hd. destruct Hd as [H1 H2].
+  apply negb_true_iff in H1. destruct (loop_context_plain i n it H1) as [Ed Ei].
+  cbn [render_items flat_map]. rewrite (IH (S i) Hl H2).
+  unfold render_leaves. cbn [map sconcat fold_right].
+  destruct Hl as [<-|[<-|[]]]; cbn [render_leaf]; rewrite ?Ed, ?Ei; cbn [sapp app]; rewrite app_nil_r; reflexivity.
+Qed.
+
+Theorem item_text_proof : forall strict T c ws x items l,
+  ctx_ok c = true ->
+  forallb (fun nt => well_formed (snd nt)) T = true ->
+  (strict = true -> Forall (fun nt => out_bound c (snd nt)) T) ->
+  spaces ws = true -> word x = true ->
+  lookup_seq c x = Some items ->
+  forallb (fun it => negb (is_dict it)) items = true ->
+  In l [LDot; LVar K_ITEM] ->
+  exists w, render_impl strict (print_templates T) c (print [NEach ws x [l]]) = Ok (flat_map str_item items) w.
+Proof.
+  intros strict T c ws x items l Hc HT HTb Hws Hx L Hd Hl.
+  assert (Hs : render_spec strict T c [NEach ws x [l]] = SOk (flat_map str_item items) []).
+  { unfold render_spec. cbn [render_tpl render_nodes map sconcat fold_right render_node].
+    rewrite L, (items_text _ _ _ l items (length items) O Hl Hd). cbn [sapp app]. rewrite app_nil_r. reflexivity. }
+  eapply render_both; eauto.
+  - cbn [well_formed forallb node_wf]. rewrite Hws, Hx.
+    destruct Hl as [<-|[<-|[]]]; reflexivity.
+  - intros _ y Hy. cbv in Hy. destruct Hy.
+Qed.
+
+
+(* every entry point, every identifier *)
+Definition result_text (r : result) : option str :=
+  match r with RRender _ _ (Ok txt _) _ => Some txt | _ => None end.
+
+Lemma spec_leaf_value_fuel : forall f strict T c x d v l,
+  is_filter d = false -> lookup c x = Some v ->
+  In l [LVar x; LOpt x; LPipe x d] ->
+  render_tpl (S f) strict T c [NLeaf l] = SOk (str_value v) [].
+Proof.
+  intros f strict T c x d v l Hd L Hl.
+  cbn [render_tpl render_nodes map sconcat fold_right render_node].
+  destruct Hl as [<-|[<-|[<-|[]]]]; cbn [render_leaf]; rewrite ?Hd, L; cbn [sapp app]; rewrite app_nil_r; reflexivity.
+Qed.
+
+Lemma spec_include_value : forall strict T c x d v l n,
+  is_filter d = false -> lookup c x = Some v ->
+  In l [LVar x; LOpt x; LPipe x d] ->
+  lookup T n = Some [NLeaf l] ->
+  render_spec strict T c [NLeaf (LInc n)] = SOk (str_value v) [].
+Proof.
+  intros strict T c x d v l n Hd L Hl LT. unfold render_spec.
+  destruct T as [|nt T]; [discriminate|]. cbn [length].
+  change (render_tpl (S (S (length T))) strict (nt :: T) c [NLeaf (LInc n)])
+    with (sapp (match lookup (nt :: T) n with
+                | Some t' => render_tpl (S (length T)) strict (nt :: T) c t'
+                | None => SOk (unknown_marker n) []
+                end) (SOk [] [])).
+  rewrite LT, (spec_leaf_value_fuel _ strict _ c x d v l Hd L Hl). cbn [sapp app]. rewrite app_nil_r. reflexivity.
+Qed.
+
+Lemma leaf_sites_wf : forall x d l, word x = true -> nonempty d = true -> clean d = true ->
+  In l [LVar x; LOpt x; LPipe x d] -> well_formed [NLeaf l] = true.
+Proof.
+  intros x d l Hx Hne Hcl Hl.
+  destruct Hl as [<-|[<-|[<-|[]]]]; cbn [well_formed forallb node_wf leaf_wf]; rewrite ?Hx, ?Hne, ?Hcl; reflexivity.
+Qed.
+Lemma leaf_sites_bound : forall c x d v l, lookup c x = Some v ->
+  In l [LVar x; LOpt x; LPipe x d] -> out_bound c [NLeaf l].
+Proof.
+  intros c x d v l L Hl. destruct Hl as [<-|[<-|[<-|[]]]].
+  - eapply out_bound_var; eauto.
+  - apply out_bound_opt.
+  - apply out_bound_pipe.
+Qed.
+
+Theorem every_identifier_binds_proof : forall strict T c x d v l n o,
+  ctx_ok c = true ->
+  forallb (fun nt => well_formed (snd nt)) T = true ->
+  (strict = true -> Forall (fun nt => out_bound c (snd nt)) T) ->
+  word x = true -> nonempty d = true -> clean d = true -> is_filter d = false ->
+  lookup c x = Some v ->
+  In l [LVar x; LOpt x; LPipe x d] ->
+  word n = true -> lookup T n = Some [NLeaf l] ->
+  In o [OpSynth [NLeaf l] c; OpRender [NLeaf l] c; OpTranslate n c;
+        OpSynth [NLeaf (LInc n)] c; OpRender [NLeaf (LInc n)] c] ->
+  result_text (result_on strict T o) = Some (str_value v).
+Proof.
+  intros strict T c x d v l n o Hc HT HTb Hx Hne Hcl Hd L Hl Hn LT Ho.
+  destruct (value_text_proof strict T c x d v l Hc HT HTb Hx Hne Hcl Hd L Hl) as (w1 & E1).
+  assert (E2 : exists w, render_impl strict (print_templates T) c (print [NLeaf (LInc n)]) = Ok (str_value v) w).
+  { eapply render_both; eauto.
+    - cbn [well_formed forallb node_wf leaf_wf]. rewrite Hn. reflexivity.
+    - intros _ y Hy. cbv in Hy. destruct Hy.
+    - eapply spec_include_value; eauto. }
+  destruct E2 as (w2 & E2).
+  destruct Ho as [<-|[<-|[<-|[<-|[<-|[]]]]]]; cbn [result_on]; rewrite ?LT, ?E1, ?E2; reflexivity.
+Qed.
+
+Theorem every_identifier_binds_decl_proof : forall strict T c x d v l cs,
+  ctx_ok c = true ->
+  forallb (fun nt => well_formed (snd nt)) T = true ->
+  (strict = true -> Forall (fun nt => out_bound c (snd nt)) T) ->
+  (strict = true -> forall y, In y (required_of cs (print [NLeaf l])) ->
+                    occurs (key_pattern y) (outside_loops (print [NLeaf l])) = true -> lookup c y <> None) ->
+  word x = true -> nonempty d = true -> clean d = true -> is_filter d = false ->
+  lookup c x = Some v ->
+  In l [LVar x; LOpt x; LPipe x d] ->
+  result_text (result_on strict T (OpRenderDecl [NLeaf l] cs c)) = Some (str_value v).
+Proof.
+  intros strict T c x d v l cs Hc HT HTb Hcs Hx Hne Hcl Hd L Hl.
+  pose proof (spec_leaf_value strict T c x d v l Hd L Hl) as Hs.
+  pose proof (leaf_sites_wf x d l Hx Hne Hcl Hl) as Hwf.
+  cbn [result_on]. destruct strict.
+  - assert (E : exists w, render_impl_decl true (print_templates T) c (print [NLeaf l]) cs = Ok (str_value v) w)
+      by (eapply strict_any_codons_proof; eauto).
+    destruct E as (w & E). rewrite E. reflexivity.
+  - assert (E : exists w, render_impl_decl false (print_templates T) c (print [NLeaf l]) cs = Ok (str_value v) w)
+      by (eapply render_eq_any_codons_proof; eauto).
+    destruct E as (w & E). rewrite E. reflexivity.
 Qed.
 
 End WithFilterTable.
